@@ -471,6 +471,40 @@ class BeamScn(Scenario):
         super().apply(simu, cfg, op, live)
 
 
+class Beam3DScn(BeamScn):
+    """3D beam with Iy != Iz: the section axis (yAxis) is a model parameter that turns the member's stiffness."""
+    name = "beam3d"
+    params0 = {"E": 200.0, "v": 0.3, "yAxis": (0.0, 1.0, 0.0)}
+    alt = {"E": 320.0, "v": 0.2, "yAxis": (0.0, 0.6, 0.8)}
+    model_ops = ["E", "v", "yAxis"]
+
+    def make_model(self, cfg):
+        from EasyFEA import Models
+        from EasyFEA.Geoms import Domain, Line, Point
+
+        p = cfg["params"]
+        with _quiet():
+            sec = Domain(Point(-0.05, -0.08), Point(0.05, 0.08)).Mesh_2D()
+        line = Line(Point(0, 0), Point(1.2, 0))
+        self._beam = Models.Beam.Isotropic(3, line, sec, p["E"], p["v"], yAxis=tuple(p["yAxis"]))
+        return Models.Beam.BeamStructure([self._beam])
+
+    def set_param(self, model, name, value):
+        setattr(model.beams[0], name, tuple(value) if name == "yAxis" else value)
+
+    def apply_bc(self, simu, cfg):
+        simu.Bc_Init()
+        if cfg["bc"] is None:
+            return
+        lo, hi = self.sides_by_index(simu.mesh, cfg)
+        unk = simu.Get_unknowns()
+        simu.add_dirichlet(lo, [0.0] * len(unk), unk)
+        if cfg["bc"] == 0:
+            simu.add_neumann(hi, [0.4, 0.25], ["y", "z"])
+        else:
+            simu.add_dirichlet(hi, [0.05, 0.02], ["y", "z"])
+
+
 class PhaseFieldScn(Scenario):
     """Two-field simulation: only the displacement problem's system (which depends on (u, d) and the parameters) is
     compared; the damage system depends on the private history field which a fresh simulation cannot be given."""
@@ -527,8 +561,8 @@ class PhaseFieldScn(Scenario):
         return self.matrices(simu)
 
 
-SCENARIOS = {s.name: s for s in (ElasticScn, Elastic3DScn, AnisoScn, ThermalScn, HyperScn, BeamScn, PhaseFieldScn)}
-QUICK_SCN = ["elastic", "thermal", "hyperelastic", "beam", "phasefield", "elastic_trisot", "elastic3d"]
+SCENARIOS = {s.name: s for s in (ElasticScn, Elastic3DScn, AnisoScn, ThermalScn, HyperScn, BeamScn, Beam3DScn, PhaseFieldScn)}
+QUICK_SCN = ["elastic", "thermal", "hyperelastic", "beam", "beam3d", "phasefield", "elastic_trisot", "elastic3d"]
 
 
 def cases(tier, seed):
@@ -555,7 +589,7 @@ def cases(tier, seed):
 def describe(tier, seed):
     depth = 2 if tier == "quick" else 3
     return {
-        "rule": f"E2 unmerged: for each of {len(QUICK_SCN)} simulation scenarios every sequence of its public mutating operations "
+        "rule": f"E2 unmerged: for each of {len(QUICK_SCN)} simulation scenarios (elastic 2D/3D, transversely isotropic with axes, thermal, hyperelastic, beam 2D, beam 3D with a section axis, phase-field) every sequence of its public mutating operations "
                 f"(11-18 per scenario: each model parameter, rho, Rayleigh coefficients, Translate, Rotate, Symmetry, coordinate assignment, mesh replacement, "
                 f"re-entered conditions, algorithm switch, solve+save, restore iteration 0) of length {depth} with an observation (matrices, solve, results) "
                 f"after every operation, and of length {depth + 1 if tier == 'quick' else depth} with one observation at the end; caches are primed by an observation before the first operation. "
